@@ -78,7 +78,16 @@ func main() {
 	seed := flag.Uint64("seed", 1, "")
 	n := flag.Int("n", 100, "")
 	big := flag.Int("big", 6, "number of programs on memories above 2 GiB")
+	mode := flag.String("mode", "e2e", "e2e: programs on both engines | amode: lowerToAddressMode called directly | elide: the frontend's known-safe-bounds cache observed while it lowers generated functions")
 	flag.Parse()
+	switch *mode {
+	case "amode":
+		mainAmode(*seed, *n)
+		return
+	case "elide":
+		mainElide(*seed, *n)
+		return
+	}
 	rng := c.NewRng(*seed)
 	out := c.NewOut()
 	defer out.Flush()
